@@ -378,6 +378,16 @@ func (t *Transaction) Insert(op *ovsdb.Operation) (ovsdb.OperationResult, *updat
 		return ovsdb.ResultFromError(err), nil
 	}
 
+	// the UUID must be free, otherwise the update cannot be committed
+	existing, err := t.Database.Get(t.DbName, op.Table, op.UUID)
+	if err != nil {
+		return ovsdb.ResultFromError(err), nil
+	}
+	if existing != nil {
+		err := ovsdb.NewConstraintViolation(fmt.Sprintf("a row with UUID %s already exists in table %s", op.UUID, op.Table))
+		return ovsdb.ResultFromError(err), nil
+	}
+
 	result := ovsdb.OperationResult{
 		UUID: ovsdb.UUID{GoUUID: op.UUID},
 	}
